@@ -648,7 +648,10 @@ impl<R: BufRead> Read for Dearmor<R> {
                     self.current_part = Part::Done(b);
                     return Ok(read);
                 }
-                Part::Temp => panic!("invalid state"),
+                Part::Temp => {
+                    // a previous call failed in the middle of a state transition
+                    return Err(io::Error::other("dearmor: reader is in an error state"));
+                }
             }
         }
     }
